@@ -258,11 +258,51 @@ theorem dec_sctList_exact (bs : Bytes) (v : Val) (r : Bytes) (h : dec tSCTList b
   rw [ty_SCTList] at hs h
   exact dec_exact _ sctListVal _ _ (shape_SCTList _) hs Rfc.decSctList_enc bs v r h
 
-/- FULL (decoders with variants): "`dec T bs = .ok (v, r)` for an arbitrary `v` implies `v` is the Go layout of an RFC value".
-Not a theorem: `TimestampedEntry` / `CertificateTimestamp` carry a third variant `JSONEntry` for entry type 0x8000
-(`XJSONLogEntryType`, the repository's documented extension), so `tls.Unmarshal` also accepts entry type 32768 where
-RFC 6962 has no `case`.  The wrappers that promise an RFC parse (`RawLogEntryFromLeaf`, `SerializeSCTSignatureInput`)
-refuse that type (`rawLogEntry_types`, `sctSigInput_spec`); the harness counts such decodes (`class:dec-json-extension`). -/
+/-! ### the structures with variants: accepted ⇒ RFC value, or the repository's JSON extension (entry type 0x8000)
+
+`ct.TimestampedEntry` carries a third variant `JSONEntry` for entry type `0x8000` (`selector:EntryType,val:32768`), which RFC 6962 does not have; it is
+the only way a value accepted by the codec can fail to be an RFC value (`CtWire.IsJsonTE`). -/
+
+/-- Whatever `tls.Marshal` accepts for `ct.TimestampedEntry` — any Go value, not only the layout of an RFC value — is an RFC
+entry with the RFC's bytes, or the JSON extension. -/
+theorem enc_timestampedEntry_any (v : Val) (bs : Bytes) (h : enc tTimestampedEntry v = .ok bs) :
+    (∃ t, v = teVal t ∧ Rfc.timestampedEntry t = some bs) ∨ IsJsonTE v := by
+  have hE := enc_timestampedEntry
+  rw [ty_TimestampedEntry] at hE h
+  rcases shape_TimestampedEntry v bs h with ⟨t, rfl⟩ | hj
+  · exact Or.inl ⟨t, rfl, okOfEo (hE t) h⟩
+  · exact Or.inr hj
+
+/-- the same for `ct.MerkleTreeLeaf`: in particular leaf type ≠ 0, two bodies, a body under the wrong type are all refused -/
+theorem enc_merkleTreeLeaf_any (v : Val) (bs : Bytes) (h : enc tMerkleTreeLeaf v = .ok bs) :
+    (∃ l, v = leafVal l ∧ Rfc.merkleTreeLeaf l = some bs) ∨ (∃ ver te, v = .struct [.num ver, .num 0, te] ∧ IsJsonTE te) := by
+  have hE := enc_merkleTreeLeaf
+  rw [ty_MerkleTreeLeaf] at hE h
+  rcases shape_MerkleTreeLeaf v bs h with ⟨l, rfl⟩ | hj
+  · exact Or.inl ⟨l, rfl, okOfEo (hE l) h⟩
+  · exact Or.inr hj
+
+theorem dec_timestampedEntry_exact (bs : Bytes) (v : Val) (r : Bytes) (h : dec tTimestampedEntry bs = .ok (v, r)) :
+    (∃ t, v = teVal t ∧ Rfc.decTimestampedEntry bs = some (t, r)) ∨ IsJsonTE v := by
+  obtain ⟨u, _, hu⟩ := Tls.enc_dec _ bs r v h
+  rcases enc_timestampedEntry_any v u hu with ⟨t, rfl, _⟩ | hj
+  · exact Or.inl ⟨t, rfl, (dec_timestampedEntry bs t r).1 h⟩
+  · exact Or.inr hj
+
+theorem dec_merkleTreeLeaf_exact (bs : Bytes) (v : Val) (r : Bytes) (h : dec tMerkleTreeLeaf bs = .ok (v, r)) :
+    (∃ l, v = leafVal l ∧ Rfc.decMerkleTreeLeaf bs = some (l, r)) ∨ (∃ ver te, v = .struct [.num ver, .num 0, te] ∧ IsJsonTE te) := by
+  obtain ⟨u, _, hu⟩ := Tls.enc_dec _ bs r v h
+  rcases enc_merkleTreeLeaf_any v u hu with ⟨l, rfl, _⟩ | hj
+  · exact Or.inl ⟨l, rfl, (dec_merkleTreeLeaf bs l r).1 h⟩
+  · exact Or.inr hj
+
+/-- An unknown leaf type is an error on the decode side too: whatever `tls.Unmarshal` accepts as a `MerkleTreeLeaf` has
+`leaf_type = timestamped_entry(0)`. -/
+theorem dec_unknown_leaf_type (bs : Bytes) (v : Val) (r : Bytes) (h : dec tMerkleTreeLeaf bs = .ok (v, r)) :
+    ∃ ver te, v = .struct [.num ver, .num 0, te] := by
+  rcases dec_merkleTreeLeaf_exact bs v r h with ⟨l, rfl, _⟩ | ⟨ver, te, rfl, _⟩
+  · exact ⟨l.version, teVal l.entry, rfl⟩
+  · exact ⟨ver, te, rfl⟩
 
 /-! ## the wrappers of serialization.go -/
 
@@ -429,7 +469,171 @@ theorem rawLogEntry_of_rfc (leafInput extraData : Bytes) (l : Rfc.MerkleTreeLeaf
     refine ⟨⟨leafVal leaf, asn1CertVal e.preCertificate, .list (e.chain.map asn1CertVal)⟩, ?_, rfl, rfl, rfl⟩
     simp [rawLogEntryFromLeaf, hla, leafVal, teVal, he, signedEntryVals, entryTypeOf, c2, c3, hca, precertChainVal]
 
-/-! ## JSON API messages convert without loss (base64 abstracted: `ext` is the decoded string) -/
+/-- **The wiring of the wrappers, as the hand models assume it, regenerated from the source on every run**: which struct literal
+`SerializeSCTSignatureInput` / `SerializeSTHSignatureInput` marshal and where each field comes from (the SCT's version,
+timestamp and *extensions*; the entry's type and body), that `LeafHashForLeaf` hashes `TreeLeafPrefix ‖ tls.Marshal(*leaf)`,
+which three `tls.Unmarshal` calls `RawLogEntryFromLeaf` makes, what `ExtraDataForChain` marshals and that `buildLogLeaf` chooses
+it exactly when no chain hash is given. -/
+theorem wrappers_as_modelled :
+    Gen.sctInputAssign = ["input := CertificateTimestamp{ SCTVersion: sct.SCTVersion, SignatureType: CertificateTimestampSignatureType, Timestamp: sct.Timestamp, EntryType: entry.Leaf.TimestampedEntry.EntryType, Extensions: sct.Extensions, }"] ∧
+    Gen.sctInputX509Assign = ["input.X509Entry = entry.Leaf.TimestampedEntry.X509Entry"] ∧
+    Gen.sctInputPrecertAssign = ["input.PrecertEntry = &PreCert{ IssuerKeyHash: entry.Leaf.TimestampedEntry.PrecertEntry.IssuerKeyHash, TBSCertificate: entry.Leaf.TimestampedEntry.PrecertEntry.TBSCertificate, }"] ∧
+    Gen.sctInputMarshal = ["tls.Marshal(input)"] ∧
+    Gen.sthInputAssign = ["input := TreeHeadSignature{ Version: sth.Version, SignatureType: TreeHashSignatureType, Timestamp: sth.Timestamp, TreeSize: sth.TreeSize, SHA256RootHash: sth.SHA256RootHash, }"] ∧
+    Gen.sthInputMarshal = ["tls.Marshal(input)"] ∧
+    Gen.leafHashMarshal = ["tls.Marshal(*leaf)"] ∧ Gen.leafHashData = ["data := append([]byte{TreeLeafPrefix}, leafData...)"] ∧
+    Gen.leafHashSum = ["sha256.Sum256(data)"] ∧
+    Gen.rawLogEntryUnmarshal = ["tls.Unmarshal(entry.LeafInput, &ret.Leaf)", "tls.Unmarshal(entry.ExtraData, &certChain)", "tls.Unmarshal(entry.ExtraData, &precertChain)"] ∧
+    Gen.extraDataAssign = ["extra = ct.PrecertChainEntry{ PreCertificate: cert, CertificateChain: chain, }", "extra = ct.CertificateChain{Entries: chain}"] ∧
+    Gen.buildLogLeafChoice = "chainHash == nil" := by
+  decide +kernel
+
+/-- `ExtraDataForChain` / `BuildLogLeaf`: the stored extra data is RFC 6962 §4.6's — the `certificate_chain` of an X.509 entry (also
+for an empty chain: `00 00 00`), the whole `PrecertChainEntry` of a precertificate entry. -/
+theorem extraData_spec (isPrecert : Bool) (cert : Bytes) (chain : List Bytes) :
+    eo (extraDataForChain isPrecert cert chain) =
+      if isPrecert then Rfc.precertChainEntry ⟨cert, chain⟩ else Rfc.certChain chain := by
+  cases isPrecert
+  · simpa [extraDataForChain, chainVal] using enc_certChain chain
+  · simpa [extraDataForChain, precertChainVal] using enc_precertChainEntry ⟨cert, chain⟩
+
+example : Rfc.certChain [] = some [0, 0, 0] := by decide
+
+/-- what `RawLogEntryFromLeaf` returns for an RFC 6962 §4.6 entry: the leaf, `Cert` (the leaf certificate of an X.509 entry, the
+submitted pre-certificate of a precert entry) and `Chain` -/
+def rleOf (l : Rfc.MerkleTreeLeaf) (x : Rfc.ExtraData) : RawLogEntry :=
+  match x with
+  | .x509 chain =>
+    ⟨leafVal l, (match l.entry.entry with | .x509 c => asn1CertVal c | .precert _ => .absent), .list (chain.map asn1CertVal)⟩
+  | .precert e => ⟨leafVal l, asn1CertVal e.preCertificate, .list (e.chain.map asn1CertVal)⟩
+
+theorem decAll_ok (T : Ty) (bs : Bytes) (v : Val) : decAll T bs = .ok v ↔ dec T bs = .ok (v, []) := by
+  unfold decAll
+  cases h : dec T bs with
+  | error e => simp
+  | ok p =>
+    obtain ⟨v', r⟩ := p
+    cases r <;> simp
+
+theorem complete_some {α : Type} (o : Option (α × Bytes)) (a : α) : Rfc.complete o = some a ↔ o = some (a, []) := by
+  unfold Rfc.complete
+  match o with
+  | some (x, []) => simp
+  | some (_, _ :: _) => simp
+  | none => simp
+
+/-- **`RawLogEntryFromLeaf` accepts exactly the RFC 6962 §4.6 entries**: it succeeds iff leaf input and extra data are a complete
+`MerkleTreeLeaf` and the complete extra data of its entry type, and then returns exactly what the RFC decoder finds.  In
+particular trailing bytes, unknown leaf types, unknown entry types and the repository's own JSON entry type are all refused. -/
+theorem rawLogEntry_iff (leafInput extraData : Bytes) (rle : RawLogEntry) :
+    rawLogEntryFromLeaf leafInput extraData = .ok rle ↔
+      ∃ l x, Rfc.decLogEntry leafInput extraData = some (l, x) ∧ rle = rleOf l x := by
+  obtain ⟨_, c2, c3, _⟩ := consts
+  constructor
+  · intro h
+    unfold rawLogEntryFromLeaf at h
+    split at h
+    · cases h
+    rename_i leaf hl
+    have hdl := (decAll_ok _ _ _).1 hl
+    rcases dec_merkleTreeLeaf_exact leafInput leaf [] hdl with ⟨l, rfl, hrl⟩ | ⟨ver, te, rfl, ts, d, ext, rfl⟩
+    · have hcl : Rfc.complete (Rfc.decMerkleTreeLeaf leafInput) = some l := (complete_some _ _).2 hrl
+      cases he : l.entry.entry with
+      | x509 c =>
+        simp only [leafVal, teVal, he, signedEntryVals, entryTypeOf, List.cons_append, List.nil_append, c2, c3] at h
+        simp only [Int.natCast_zero, if_true] at h
+        split at h
+        · cases h
+        · rename_i chain hc
+          cases h
+          obtain ⟨c', hv, hr⟩ := dec_certChain_exact extraData _ [] ((decAll_ok _ _ _).1 hc)
+          simp only [chainVal, Val.struct.injEq, List.cons.injEq, and_true] at hv
+          subst hv
+          refine ⟨l, .x509 c', ?_, ?_⟩
+          · simp [Rfc.decLogEntry, bind, hcl, he, (complete_some _ _).2 hr]
+          · simp [rleOf, he, leafVal, teVal, signedEntryVals]
+        · cases h
+      | precert p =>
+        simp only [leafVal, teVal, he, signedEntryVals, entryTypeOf, List.cons_append, List.nil_append, c2, c3] at h
+        simp only [Int.natCast_one, show ¬ ((1 : Int) = 0) by decide, if_false, if_true] at h
+        split at h
+        · cases h
+        · rename_i pre chain hc
+          cases h
+          obtain ⟨e, hv, hr⟩ := dec_precertChainEntry_exact extraData _ [] ((decAll_ok _ _ _).1 hc)
+          simp only [precertChainVal, Val.struct.injEq, List.cons.injEq, and_true] at hv
+          obtain ⟨rfl, rfl⟩ := hv
+          refine ⟨l, .precert e, ?_, ?_⟩
+          · simp [Rfc.decLogEntry, bind, hcl, he, (complete_some _ _).2 hr]
+          · simp [rleOf, leafVal, teVal, he, signedEntryVals]
+        · cases h
+    · -- the JSON extension: entry type 0x8000 is neither of the two types the function knows
+      simp [entryTypeOf, c2, c3] at h
+  · rintro ⟨l, x, h, rfl⟩
+    simp only [Rfc.decLogEntry, bind, Option.bind_eq_some_iff] at h
+    obtain ⟨leaf, hleaf, h⟩ := h
+    have hl := (dec_merkleTreeLeaf leafInput leaf []).2 ((complete_some _ _).1 hleaf)
+    have hla : decAll tMerkleTreeLeaf leafInput = .ok (leafVal leaf) := (decAll_ok _ _ _).2 hl
+    cases he : leaf.entry.entry with
+    | x509 c =>
+      simp only [he, Option.bind_eq_some_iff, pure, Option.some.injEq, Prod.mk.injEq] at h
+      obtain ⟨chain, hch, rfl, rfl⟩ := h
+      have hc := (dec_certChain extraData chain []).2 ((complete_some _ _).1 hch)
+      have hca : decAll tCertificateChain extraData = .ok (chainVal chain) := (decAll_ok _ _ _).2 hc
+      simp [rawLogEntryFromLeaf, hla, leafVal, teVal, he, signedEntryVals, entryTypeOf, c2, hca, chainVal, rleOf]
+    | precert p =>
+      simp only [he, Option.bind_eq_some_iff, pure, Option.some.injEq, Prod.mk.injEq] at h
+      obtain ⟨e, hch, rfl, rfl⟩ := h
+      have hc := (dec_precertChainEntry extraData e []).2 ((complete_some _ _).1 hch)
+      have hca : decAll tPrecertChainEntry extraData = .ok (precertChainVal e) := (decAll_ok _ _ _).2 hc
+      simp [rawLogEntryFromLeaf, hla, leafVal, teVal, he, signedEntryVals, entryTypeOf, c2, c3, hca, precertChainVal, rleOf]
+
+/-! ## JSON API messages convert without loss (base64 abstracted: `ext` is the decoded string)
+
+`toSCT` / `toSTH` (CTV/Model/CtWire.lean) model `ToSignedCertificateTimestamp` / `ToSignedTreeHead` with `tls.Unmarshal`
+on the **regenerated** `ct.DigitallySigned` plus the trailing-data test. -/
+
+/-- the signature field: `tls.Unmarshal` + "no trailing data" on the regenerated type = the RFC's complete `DigitallySigned` parse -/
+theorem parseDS_eq_rfc (sig : Bytes) : parseDS sig = Rfc.complete (Rfc.decDigitallySigned sig) := by
+  unfold parseDS decAll
+  cases hd : dec tDigitallySigned sig with
+  | error e =>
+    simp only
+    cases hr : Rfc.decDigitallySigned sig with
+    | none => rfl
+    | some p =>
+      obtain ⟨d, r⟩ := p
+      have := (dec_digitallySigned sig d r).2 hr
+      rw [hd] at this; cases this
+  | ok p =>
+    obtain ⟨v, r⟩ := p
+    obtain ⟨d, rfl, hr⟩ := dec_digitallySigned_exact sig v r hd
+    rw [hr]
+    cases r with
+    | nil => simp [Rfc.complete, dsOfVal, dsVal]
+    | cons b bs => simp [Rfc.complete]
+
+theorem toSCT_eq_rfc (v : Nat) (id : Bytes) (ts : Nat) (ext sig : Bytes) : toSCT v id ts ext sig = toSCTRfc v id ts ext sig := by
+  simp only [toSCT, toSCTRfc, parseDS_eq_rfc]
+
+theorem toSTH_eq_rfc (n ts : Nat) (root sig : Bytes) : toSTH n ts root sig = toSTHRfc n ts root sig := by
+  simp only [toSTH, toSTHRfc, parseDS_eq_rfc]
+
+theorem parseDS_some (sig : Bytes) (d : Rfc.DigitallySigned) : parseDS sig = some d ↔ Rfc.digitallySigned d = some sig := by
+  rw [parseDS_eq_rfc]
+  constructor
+  · intro h
+    have : Rfc.decDigitallySigned sig = some (d, []) := by
+      unfold Rfc.complete at h
+      split at h
+      · cases h; assumption
+      · cases h
+    obtain ⟨a, ha, hs⟩ := Rfc.digitallySigned_dec _ _ _ this
+    simp at hs; subst hs; exact ha
+  · intro h
+    have := Rfc.decDigitallySigned_enc d sig [] h
+    simp at this
+    simp [this, Rfc.complete]
 
 /-- `ToSignedCertificateTimestamp`: every field of the message is in the structure, the signature bytes are exactly
 one `DigitallySigned` (nothing trailing), and a wrong id length is refused. -/
@@ -442,23 +646,14 @@ theorem toSCT_lossless (v : Nat) (id : Bytes) (ts : Nat) (ext sig : Bytes) (s : 
     split at h
     · rename_i d hd
       cases h
-      refine ⟨rfl, rfl, hid, rfl, rfl, ?_⟩
-      have : Rfc.decDigitallySigned sig = some (d, []) := by
-        unfold Rfc.complete at hd
-        split at hd
-        · cases hd; assumption
-        · cases hd
-      obtain ⟨a, ha, hs⟩ := Rfc.digitallySigned_dec _ _ _ this
-      simp at hs; subst hs; exact ha
+      exact ⟨rfl, rfl, hid, rfl, rfl, (parseDS_some sig d).1 hd⟩
     · cases h
   · cases h
 
 /-- and conversely every RFC SCT comes back from its message form -/
 theorem toSCT_complete (s : Rfc.SCT) (sig : Bytes) (hid : s.logID.length = 32) (hs : Rfc.digitallySigned s.signature = some sig) :
     toSCT s.version s.logID s.timestamp s.extensions sig = some s := by
-  have := Rfc.decDigitallySigned_enc s.signature sig [] hs
-  simp at this
-  simp [toSCT, hid, this, Rfc.complete]
+  simp [toSCT, hid, (parseDS_some sig s.signature).2 hs]
 
 theorem toSTH_lossless (n ts : Nat) (root sig : Bytes) (s : STH) (h : toSTH n ts root sig = some s) :
     s.treeSize = n ∧ s.timestamp = ts ∧ s.rootHash = root ∧ root.length = 32 ∧ Rfc.digitallySigned s.signature = some sig := by
@@ -468,16 +663,25 @@ theorem toSTH_lossless (n ts : Nat) (root sig : Bytes) (s : STH) (h : toSTH n ts
     split at h
     · rename_i d hd
       cases h
-      refine ⟨rfl, rfl, rfl, hid, ?_⟩
-      have : Rfc.decDigitallySigned sig = some (d, []) := by
-        unfold Rfc.complete at hd
-        split at hd
-        · cases hd; assumption
-        · cases hd
-      obtain ⟨a, ha, hs⟩ := Rfc.digitallySigned_dec _ _ _ this
-      simp at hs; subst hs; exact ha
+      exact ⟨rfl, rfl, rfl, hid, (parseDS_some sig d).1 hd⟩
     · cases h
   · cases h
+
+theorem toSTH_complete (s : STH) (sig : Bytes) (hid : s.rootHash.length = 32) (hs : Rfc.digitallySigned s.signature = some sig) :
+    toSTH s.treeSize s.timestamp s.rootHash sig = some s := by
+  simp [toSTH, hid, (parseDS_some sig s.signature).2 hs]
+
+/-- **The `json:"…"` tags of the API message structs are the field names of RFC 6962 §4** (regenerated from types.go on every
+run), in the RFC's order and with the JSON kind the RFC gives (number / base64 string / array of base64 / array of
+entry objects), for all eight messages; `LeafEntry` has exactly `leaf_input`, `extra_data`. -/
+theorem api_json_is_rfc :
+    (∀ m ∈ Rfc.apiTable, ∃ g, goStructOf.lookup m.1 = some g ∧ jsonShape g = some (m.2.map fun (n, k) => (n, some k))) ∧
+    jsonShape "LeafEntry" = some (Rfc.entryFields.map fun (n, k) => (n, some k)) := by
+  decide +kernel
+
+/-- the repository's JSON form of a signed tree head (not an RFC message): names as regenerated -/
+example : (jsonShape "SignedTreeHead").map (·.map (·.1)) =
+    some ["sth_version", "tree_size", "timestamp", "sha256_root_hash", "tree_head_signature", "log_id"] := by decide +kernel
 
 /-! ## non-vacuity: concrete instances -/
 
